@@ -1,4 +1,261 @@
-//! `project` endpoint (filled in with C13).
-pub fn dispatch(_fields: &[&str]) -> String {
-    "BAD\tnot implemented".into()
+//! `project` endpoint (C13): the implementation side of the project-level correspondence.
+//!
+//! Sub-commands (first field):
+//!
+//! `dir <base hex> <annotate 0|1> <src hex|~> <target hex|~> <runs> <entries>`
+//!     creates a fresh directory under `base`, populates it with `entries`
+//!     (`F:<relpath hex>:<content hex>` / `D:<relpath hex>`, comma separated, relative to the fresh
+//!     directory), calls `mamba::transpile_dir(dir, src, target, &Arguments{annotate})` `runs` times and
+//!     answers, per run, three fields: `OK|ERR`, hex of the returned path relative to the fresh directory
+//!     (or of the error strings joined by U+001E), and the complete listing of the fresh directory in the
+//!     same entry syntax (sorted).  The fresh directory is removed before answering.
+//!     Every occurrence of the fresh directory's absolute path inside error strings is replaced by `$DIR`.
+//!
+//! `m2p <annotate> <source_dir hex> <items>`
+//!     calls `mamba::mamba_to_python` directly with the (source, Some(path)|None) vector in the GIVEN order;
+//!     items are `<path hex|~>:<source hex>` comma separated.  Answer: `OK h<hex>,h<hex>..` | `ERR h<hex>,..`.
+//!
+//! `stages <annotate> <items>`
+//!     per-file stage results in the context of the whole vector, computed with the public per-stage API
+//!     (`str::parse::<AST>`, `Context::try_from`, `check`, `gen_arguments`) and rendered WITHOUT a path
+//!     (source attached), so that the model can be instantiated with them:
+//!     field 1 per file `ok` | `e<hex msg>`; field 2 `ok` | `-` (not reached) | `e<hex>;<hex>`;
+//!     field 3 per file `ok` | `-` | `e<hex>;<hex>..`; field 4 per file `o<hex python>` | `-` | `e<hex>`.
+use std::convert::TryFrom;
+use std::fs;
+use std::path::{Path, PathBuf};
+use std::sync::atomic::{AtomicUsize, Ordering};
+
+use mamba::check::check;
+use mamba::check::context::Context;
+use mamba::common::result::WithSource;
+use mamba::generate::{gen_arguments, GenArguments};
+use mamba::parse::ast::AST;
+use mamba::{mamba_to_python, transpile_dir, Arguments, PipelineArguments};
+
+use crate::sexp::{hex, unhex};
+
+static COUNTER: AtomicUsize = AtomicUsize::new(0);
+
+pub fn dispatch(fields: &[&str]) -> String {
+    match fields.first().copied() {
+        Some("dir") => dir(&fields[1..]),
+        Some("m2p") => m2p(&fields[1..]),
+        Some("stages") => stages(&fields[1..]),
+        _ => "BAD\tunknown project sub-command".into(),
+    }
+}
+
+fn opt(field: Option<&&str>) -> Result<Option<String>, String> {
+    match field {
+        None => Err("missing field".into()),
+        Some(&"~") => Ok(None),
+        Some(h) => unhex(h).map(Some),
+    }
+}
+
+struct Cleanup(PathBuf);
+impl Drop for Cleanup {
+    fn drop(&mut self) {
+        let _ = fs::remove_dir_all(&self.0);
+    }
+}
+
+fn listing(root: &Path, dir: &Path, out: &mut Vec<String>) -> Result<(), String> {
+    let mut entries: Vec<_> = fs::read_dir(dir)
+        .map_err(|e| e.to_string())?
+        .collect::<Result<Vec<_>, _>>()
+        .map_err(|e| e.to_string())?;
+    entries.sort_by_key(|e| e.file_name());
+    for e in entries {
+        let p = e.path();
+        let rel = p.strip_prefix(root).map_err(|e| e.to_string())?;
+        let rel = rel.to_str().ok_or("non-utf8 path")?.to_string();
+        let ty = e.file_type().map_err(|e| e.to_string())?;
+        if ty.is_dir() {
+            out.push(format!("D:{}", hex(&rel)));
+            listing(root, &p, out)?;
+        } else {
+            let bytes = fs::read(&p).map_err(|e| e.to_string())?;
+            let h: String = bytes.iter().map(|b| format!("{b:02x}")).collect();
+            out.push(format!("F:{}:{}", hex(&rel), h));
+        }
+    }
+    Ok(())
+}
+
+fn dir(fields: &[&str]) -> String {
+    let base = match fields.first().map(|h| unhex(h)) {
+        Some(Ok(b)) if !b.is_empty() => PathBuf::from(b),
+        _ => return "BAD\tbase".into(),
+    };
+    let annotate = fields.get(1).copied() == Some("1");
+    let (src, target) = match (opt(fields.get(2)), opt(fields.get(3))) {
+        (Ok(s), Ok(t)) => (s, t),
+        _ => return "BAD\tsrc/target".into(),
+    };
+    let runs: usize = fields.get(4).and_then(|r| r.parse().ok()).unwrap_or(1);
+    let entries = fields.get(5).copied().unwrap_or("");
+
+    let n = COUNTER.fetch_add(1, Ordering::SeqCst);
+    let root = base.join(format!("p{}_{}", std::process::id(), n));
+    if fs::create_dir_all(&root).is_err() {
+        return "BAD\tcannot create project directory".into();
+    }
+    let _cleanup = Cleanup(root.clone());
+    // canonical form so that the replacement of the absolute path in messages is reliable
+    let root = match root.canonicalize() {
+        Ok(r) => r,
+        Err(e) => return format!("BAD\t{e}"),
+    };
+
+    for entry in entries.split(',').filter(|e| !e.is_empty()) {
+        let parts: Vec<&str> = entry.split(':').collect();
+        let rel = match parts.get(1).map(|h| unhex(h)) {
+            Some(Ok(r)) => r,
+            _ => return "BAD\tentry path".into(),
+        };
+        let p = root.join(&rel);
+        let res = match parts[0] {
+            "D" => fs::create_dir_all(&p),
+            "F" => {
+                let content = match parts.get(2) {
+                    Some(h) => match bytes_of(h) {
+                        Ok(c) => c,
+                        Err(e) => return format!("BAD\t{e}"),
+                    },
+                    None => return "BAD\tentry content".into(),
+                };
+                p.parent().map_or(Ok(()), fs::create_dir_all).and_then(|_| fs::write(&p, content))
+            }
+            _ => return "BAD\tentry kind".into(),
+        };
+        if let Err(e) = res {
+            return format!("BAD\tpopulate {rel}: {e}");
+        }
+    }
+
+    let root_str = root.to_str().unwrap_or_default().to_string();
+    let mut answer = vec![];
+    for _ in 0..runs {
+        let res = transpile_dir(&root, src.as_deref(), target.as_deref(), &Arguments { annotate });
+        match res {
+            Ok(p) => {
+                let rel = p.strip_prefix(&root).map(|r| r.to_path_buf()).unwrap_or(p);
+                answer.push("OK".to_string());
+                answer.push(hex(rel.to_str().unwrap_or_default()));
+            }
+            Err(errs) => {
+                let errs: Vec<String> = errs.iter().map(|e| e.replace(&root_str, "$DIR")).collect();
+                answer.push("ERR".to_string());
+                answer.push(hex(&errs.join("\u{1e}")));
+            }
+        }
+        let mut l = vec![];
+        if let Err(e) = listing(&root, &root, &mut l) {
+            return format!("BAD\tlisting: {e}");
+        }
+        answer.push(l.join(","));
+    }
+    answer.join("\t")
+}
+
+fn bytes_of(h: &str) -> Result<Vec<u8>, String> {
+    if h.len() % 2 != 0 {
+        return Err("odd hex".into());
+    }
+    (0..h.len())
+        .step_by(2)
+        .map(|i| u8::from_str_radix(&h[i..i + 2], 16).map_err(|e| e.to_string()))
+        .collect()
+}
+
+fn items(field: Option<&&str>) -> Result<Vec<(String, Option<PathBuf>)>, String> {
+    let mut out = vec![];
+    for item in field.copied().unwrap_or("").split(',').filter(|e| !e.is_empty()) {
+        let (p, s) = item.split_once(':').ok_or("item without ':'")?;
+        let path = if p == "~" { None } else { Some(PathBuf::from(unhex(p)?)) };
+        out.push((unhex(s)?, path));
+    }
+    Ok(out)
+}
+
+fn hlist(v: &[String]) -> String {
+    v.iter().map(|s| format!("h{}", hex(s))).collect::<Vec<_>>().join(",")
+}
+
+fn m2p(fields: &[&str]) -> String {
+    let annotate = fields.first().copied() == Some("1");
+    let source_dir = match fields.get(1).map(|h| unhex(h)) {
+        Some(Ok(d)) => PathBuf::from(d),
+        _ => return "BAD\tsource_dir".into(),
+    };
+    let input = match items(fields.get(2)) {
+        Ok(i) => i,
+        Err(e) => return format!("BAD\t{e}"),
+    };
+    match mamba_to_python(&input, &source_dir, &PipelineArguments { annotate }) {
+        Ok(out) => format!("OK\t{}", hlist(&out)),
+        Err(errs) => format!("ERR\t{}", hlist(&errs)),
+    }
+}
+
+fn stages(fields: &[&str]) -> String {
+    let annotate = fields.first().copied() == Some("1");
+    let input = match items(fields.get(1)) {
+        Ok(i) => i,
+        Err(e) => return format!("BAD\t{e}"),
+    };
+    let n = input.len();
+    let parsed: Vec<Result<AST, String>> = input
+        .iter()
+        .map(|(src, _)| {
+            src.parse::<AST>()
+                .map_err(|err| format!("{}", err.with_source(&Some(src.clone()), &None)))
+        })
+        .collect();
+    let f1: Vec<String> = parsed
+        .iter()
+        .map(|r| match r {
+            Ok(_) => "ok".to_string(),
+            Err(m) => format!("e{}", hex(m)),
+        })
+        .collect();
+    let dash = |k: usize| vec!["-".to_string(); k].join(",");
+    if parsed.iter().any(|r| r.is_err()) {
+        return format!("OK\t{}\t-\t{}\t{}", f1.join(","), dash(n), dash(n));
+    }
+    let asts: Vec<AST> = parsed.into_iter().map(Result::unwrap).collect();
+    let ctx = match Context::try_from(asts.as_ref()) {
+        Ok(ctx) => ctx,
+        Err(errs) => {
+            let msgs: Vec<String> = errs.iter().map(|e| hex(&format!("{e}"))).collect();
+            return format!("OK\t{}\te{}\t{}\t{}", f1.join(","), msgs.join(";"), dash(n), dash(n));
+        }
+    };
+    let mut f3 = vec![];
+    let mut f4 = vec![];
+    for (ast, (src, _)) in asts.iter().zip(&input) {
+        match check(ast, &ctx) {
+            Ok(typed) => {
+                f3.push("ok".to_string());
+                match gen_arguments(&typed, &GenArguments { annotate }, &ctx) {
+                    Ok(core) => f4.push(format!("o{}", hex(&format!("{core}")))),
+                    Err(err) => {
+                        let e = err.with_source(&Some(src.clone()), &None);
+                        f4.push(format!("e{}", hex(&format!("{e}"))))
+                    }
+                }
+            }
+            Err(errs) => {
+                let msgs: Vec<String> = errs
+                    .iter()
+                    .map(|e| hex(&format!("{}", e.clone().with_source(&Some(src.clone()), &None))))
+                    .collect();
+                f3.push(format!("e{}", msgs.join(";")));
+                f4.push("-".to_string());
+            }
+        }
+    }
+    format!("OK\t{}\tok\t{}\t{}", f1.join(","), f3.join(","), f4.join(","))
 }
